@@ -124,6 +124,8 @@ type tracer struct {
 	// a frame's remaining gas must never grow from one of its steps to the next
 	lastGas  map[int]uint64
 	gasGrew  string
+	// a step is executed only after its cost has been taken from the frame's gas
+	unpaid string
 	stepCap  int
 	prevDeep int
 }
@@ -152,6 +154,9 @@ func (t *tracer) CaptureState(env *evm.EVM, pc uint64, op evm.OpCode, gas, cost 
 		t.cancelled = true
 		env.Cancel()
 		return nil
+	}
+	if err == nil && cost > gas && t.unpaid == "" {
+		t.unpaid = fmt.Sprintf("depth %d pc %d %s: cost %d with %d gas remaining", depth, pc, op, cost, gas)
 	}
 	// entering a deeper frame resets what is known about that depth
 	if depth > t.prevDeep {
